@@ -233,6 +233,13 @@ static bool doMisuse(Interp& I, const Step& s)
                        [&]() { BF->apply(*W.slots[size_t(a)].e, *W.slots[size_t(b)].e, c); })) return false;
         return afterMisuse(I);
     }
+    if (kind == "doubleinit") {
+        // misuse doubleinit : MEDDLY::initialize() while the library is running; everything must stay usable
+        // (the steps that follow keep operating with the configured compute-table style)
+        I.R.labels.add("misuse.double_initialize");
+        if (!mustThrow(I, "MEDDLY::initialize() on a running library", {int(error::ALREADY_INITIALIZED)}, [&]() { MEDDLY::initialize(); })) return false;
+        return afterMisuse(I);
+    }
     if (kind == "orderun") {
         // misuse orderun OP a fc : unary operation into a forest with a different variable order
         if (s.size() < 5) { I.skip("misuse-short"); return true; }
